@@ -108,6 +108,11 @@ def run(ctx):
         from ._vid import check_all_nodes_are_vertices
 
         check_all_nodes_are_vertices(ctx, res)
+    with res.guard("L-PREFILTER (shared with C10)"):
+        from ._vid import check_line_graph_prefilter
+
+        res.rules["L-PREFILTER"] = "a size pre-filter in front of the pair comparison of the s-line graph keeps every hyperedge with at least s nodes"
+        check_line_graph_prefilter(ctx, res)
     for name, (proj, functional, takes_s, node_version) in TABLE.items():
         d = f"s_centralities.{name}"
         with res.guard(f"delegation of {name}"):
